@@ -108,17 +108,17 @@ def _history(job):
         except InsufficientBalance:
             if not must_reject and not band:
                 key_ = 'rejected_although_balance_sufficient' + ('_after_cancel' if cancelled_sell[sym] and side == 'sell' else '')
-                if side == 'sell' and slack == 0 and cancelled_sell[sym]:
+                if side == 'sell' and slack == 0:
                     # classification only: the account's running sum of resting sells (re-rounded to a double after every
-                    # submission and cancellation) against the exact one. A residue of a few ulp left behind by earlier
-                    # cancellations is the listed finding; anything else keeps the general key
+                    # submission, cancellation and execution) against the exact one. A residue of a few ulp left behind by
+                    # earlier cancellations or fills is the listed finding; anything else keeps the general key
                     sums_ = exch.stop_orders_sum if typ == 'STOP' else exch.limit_orders_sum
                     sut_total = float(sums_.get(sym, 0.0))
                     if typ == 'MARKET':
                         sut_total = float(models.D(qty) + models.D(sut_total))
                     exact_total = float(models.D(qty) + mdl.committed(sym, 'LIMIT' if typ == 'MARKET' else typ))
                     if 0 < sut_total - exact_total <= 4 * math.ulp(max(float(mdl.base[sym]), 1e-300)):
-                        key_ = 'exact_boundary_sell_rejected:committed_sum_residue_after_cancellations'
+                        key_ = 'exact_boundary_sell_rejected:committed_sum_residue'
                 v(key_, f'{side} {typ} {qty}@{price}: slack {slack:.3e} (model: acceptable) was rejected')
             c('reject_buy_agreed' if side == 'buy' else 'reject_sell_agreed')
             raise Stop()
